@@ -180,6 +180,9 @@ theorem logInv_stable (full : List LogEntry) : Stable (LogInv full) where
       | some rs => cases rs <;> exact logInv_of_same h rfl rfl rfl
   argv s i v _ := logInv_edited rfl
   argc s n _ := logInv_edited rfl
+  close s f h := logInv_of_same h rfl rfl rfl
+  enter s h := logInv_of_same h rfl rfl rfl
+  leave s h := logInv_of_same h rfl rfl rfl
   take s r s1 h hn := by
     have h1 := logInv_nextLine h
     rw [hn] at h1
